@@ -129,6 +129,92 @@ def fs_prefix_tuple(outer="(ALLEGED_IMMUTABLE_PREFIX, ALLEGED_READONLY_PREFIX)",
             "            s = s[len(ALLEGED_READONLY_PREFIX):]\n") % (outer, inner, clear)
 
 
+# ---- the kind dispatch of from_string as data: the if-chain of /repo and its table-driven rewrite are both generated
+# from it (seeded C16-I turned the chain into a table of rows and the prefix handling into a table-driven helper)
+_KINDS = [
+    ("URI:CHK:", "CHKFileURI", None, None),
+    ("URI:CHK-Verifier:", "CHKFileVerifierURI", None, None),
+    ("URI:LIT:", "LiteralFileURI", None, None),
+    ("URI:SSK:", "WriteableSSKFileURI", "W", "URI:SSK file writecap"),
+    ("URI:SSK-RO:", "ReadonlySSKFileURI", "M", "URI:SSK-RO readcap to a mutable file"),
+    ("URI:SSK-Verifier:", "SSKVerifierURI", None, None),
+    ("URI:MDMF:", "WriteableMDMFFileURI", "W", "URI:MDMF file writecap"),
+    ("URI:MDMF-RO:", "ReadonlyMDMFFileURI", "M", "URI:MDMF-RO readcap to a mutable file"),
+    ("URI:MDMF-Verifier:", "MDMFVerifierURI", None, None),
+    ("URI:DIR2:", "DirectoryURI", "W", "URI:DIR2 directory writecap"),
+    ("URI:DIR2-RO:", "ReadonlyDirectoryURI", "M", "URI:DIR2-RO readcap to a mutable directory"),
+    ("URI:DIR2-Verifier:", "DirectoryURIVerifier", None, None),
+    ("URI:DIR2-CHK:", "ImmutableDirectoryURI", None, None),
+    ("URI:DIR2-CHK-Verifier:", "ImmutableDirectoryURIVerifier", None, None),
+    ("URI:DIR2-LIT:", "LiteralDirectoryURI", None, None),
+    ("URI:DIR2-MDMF:", "MDMFDirectoryURI", "W", "URI:DIR2-MDMF directory writecap"),
+    ("URI:DIR2-MDMF-RO:", "ReadonlyMDMFDirectoryURI", "M", "URI:DIR2-MDMF-RO readcap to a mutable directory"),
+    ("URI:DIR2-MDMF-Verifier:", "MDMFDirectoryURIVerifier", None, None),
+]
+_FLAG = {"W": "can_be_writeable", "M": "can_be_mutable"}
+
+
+def _fs_chain():
+    out = ["    s = u\n    can_be_mutable = can_be_writeable = not deep_immutable\n"
+           "    if s.startswith(ALLEGED_IMMUTABLE_PREFIX):\n        can_be_mutable = can_be_writeable = False\n"
+           "        s = s[len(ALLEGED_IMMUTABLE_PREFIX):]\n    elif s.startswith(ALLEGED_READONLY_PREFIX):\n"
+           "        can_be_writeable = False\n        s = s[len(ALLEGED_READONLY_PREFIX):]\n\n    error = None\n    try:\n"]
+    for i, (pfx, k, gate, what) in enumerate(_KINDS):
+        out.append("        %s s.startswith(b'%s'):\n" % ("elif" if i else "if", pfx))
+        if gate is None:
+            out.append("            return %s.init_from_string(s)\n" % k)
+        else:
+            out.append("            if %s:\n                return %s.init_from_string(s)\n            kind = \"%s\"\n" % (_FLAG[gate], k, what))
+    out.append("        elif s.startswith(b'x-tahoe-future-test-writeable:') and not can_be_writeable:\n"
+               "            # For testing how future writeable caps would behave in read-only contexts.\n"
+               "            kind = \"x-tahoe-future-test-writeable: testing cap\"\n"
+               "        elif s.startswith(b'x-tahoe-future-test-mutable:') and not can_be_mutable:\n"
+               "            # For testing how future mutable readcaps would behave in immutable contexts.\n"
+               "            kind = \"x-tahoe-future-test-mutable: testing cap\"\n"
+               "        else:\n            return UnknownURI(u)\n\n"
+               "        # We fell through because a constraint was not met.\n        # Prefer to report the most specific constraint.\n"
+               "        if not can_be_mutable:\n            error = MustBeDeepImmutableError(kind + \" used in an immutable context\", name)\n"
+               "        else:\n            error = MustBeReadonlyError(kind + \" used in a read-only context\", name)\n\n"
+               "    except BadURIError as e:\n        error = e\n\n    return UnknownURI(u, error=error)\n\ndef is_uri(s):\n")
+    return "".join(out)
+
+
+def _fs_table(ro_row="True,           False", strip_ret="can_be_mutable and not deep_immutable, can_be_writeable and not deep_immutable",
+              rows=None, allowed_w="can_be_writeable", lookup="loop", refused_tail=None, cut="len(prefix)"):
+    """from_string rewritten table-driven (tables and helper placed behind it: they are looked up at call time)."""
+    body = ("    (s, can_be_mutable, can_be_writeable) = _strip_alleged_prefix(u, deep_immutable)\n"
+            "    allowed = {\n        None: True,\n        _WRITEABLE: %s,\n        _MUTABLE: can_be_mutable,\n    }\n\n" % allowed_w)
+    if lookup == "loop":
+        body += ("    for (prefix, cls, requires, kind) in _KNOWN_CAPS:\n        if s.startswith(prefix):\n            break\n"
+                 "    else:\n        return UnknownURI(u)\n\n")
+    else:
+        body += ("    row = next((r for r in _KNOWN_CAPS if s.startswith(r[0])), None)\n    if row is None:\n"
+                 "        return UnknownURI(u)\n    (prefix, cls, requires, kind) = row\n\n")
+    body += ("    if allowed[requires]:\n        if cls is None:\n            # a testing cap in a context that does not constrain it\n"
+             "            return UnknownURI(u)\n        try:\n            return cls.init_from_string(s)\n"
+             "        except BadURIError as e:\n            return UnknownURI(u, error=e)\n\n")
+    body += refused_tail or (
+        "    # A constraint was not met.\n    # Prefer to report the most specific constraint.\n    if not can_be_mutable:\n"
+        "        error = MustBeDeepImmutableError(kind + \" used in an immutable context\", name)\n    else:\n"
+        "        error = MustBeReadonlyError(kind + \" used in a read-only context\", name)\n    return UnknownURI(u, error=error)\n")
+    tbl = "\n_WRITEABLE = \"writeable\"\n_MUTABLE = \"mutable\"\n\n_KNOWN_CAPS = (\n"
+    for (pfx, k, gate, what) in (rows or _KINDS):
+        tbl += "    (b'%s', %s, %s, %s),\n" % (pfx, k, {"W": "_WRITEABLE", "M": "_MUTABLE", None: "None"}[gate],
+                                              ("\"%s\"" % what) if what else "None")
+    tbl += ("    (b'x-tahoe-future-test-writeable:', None, _WRITEABLE, \"x-tahoe-future-test-writeable: testing cap\"),\n"
+            "    (b'x-tahoe-future-test-mutable:', None, _MUTABLE, \"x-tahoe-future-test-mutable: testing cap\"),\n)\n\n"
+            "_ALLEGED_PREFIXES = (\n    # prefix,                  can be mutable, can be writeable\n"
+            "    (ALLEGED_IMMUTABLE_PREFIX, False,          False),\n    (ALLEGED_READONLY_PREFIX,  %s),\n)\n\n" % ro_row)
+    tbl += ("def _strip_alleged_prefix(s, deep_immutable):\n    for (prefix, can_be_mutable, can_be_writeable) in _ALLEGED_PREFIXES:\n"
+            "        if s.startswith(prefix):\n            return (s[%s:], %s)\n"
+            "    return (s, not deep_immutable, not deep_immutable)\n\n" % (cut, strip_ret))
+    return body + tbl + "\ndef is_uri(s):\n"
+
+
+FS_CHAIN = _fs_chain()
+_ROWS_DIR2RO_UNGATED = [(p_, k_, None if k_ == "ReadonlyDirectoryURI" else g_, None if k_ == "ReadonlyDirectoryURI" else w_)
+                        for (p_, k_, g_, w_) in _KINDS]
+
 MUTANTS = [
     # ---- C16.1 diminishing constructors
     M("ssk-readonly-gets-writekey", U, "return ReadonlySSKFileURI(self.readkey, self.fingerprint)",
@@ -455,6 +541,30 @@ MUTANTS = [
       "    if isinstance(u, str):\n        u = u.encode(\"utf-8\")\n    if not isinstance(u, bytes):\n        raise TypeError(\"URI must be unicode string or bytes: %r\" % (u,))\n\n    # We allow and check",
       "    if isinstance(u, str):\n        return from_string(u.encode(\"utf-8\"), deep_immutable, name)\n    if not isinstance(u, bytes):\n        raise TypeError(\"URI must be unicode string or bytes: %r\" % (u,))\n\n    # We allow and check",
       None, note="a recursive entry before any prefix was examined"),
+    # ---- C16.17 and the table-driven shape of the dispatch (C16.5/.9/.10/.13/.16 decide it by scenarios)
+    M("benign-from-string-table-driven", U, FS_CHAIN, _fs_table(), None,
+      note="seeded C16-I with the slip repaired: rows of (prefix, class, required constraint), prefix handling in a table-driven "
+           "helper that can only lower what the context allows"),
+    M("benign-from-string-table-driven-next", U, FS_CHAIN, _fs_table(lookup="next"), None,
+      note="the same table, the row found by next() over a generator instead of for/else"),
+    M("table-ro-row-allows-writeable", U, FS_CHAIN, _fs_table(ro_row="True,           True"), "C16.17",
+      note="the 'ro.' row leaves can_be_writeable to the context: ro. + writecap comes back writeable outside immutable directories"),
+    M("table-ro-row-overrides-deep-immutable", U, FS_CHAIN, _fs_table(strip_ret="can_be_mutable, can_be_writeable"), "C16.17",
+      note="seeded C16-I: the 'ro.' row carries can_be_mutable=True, returned as it is: ro.URI:SSK-RO: with deep_immutable=True "
+           "gives a live mutable readcap"),
+    M("table-row-of-mutable-readcap-ungated", U, FS_CHAIN, _fs_table(rows=_ROWS_DIR2RO_UNGATED), "C16.17",
+      note="a table row that requires nothing for URI:DIR2-RO:"),
+    M("table-writeable-allowed-by-mutable-flag", U, FS_CHAIN, _fs_table(allowed_w="can_be_mutable"), "C16.17",
+      note="the allowed-map lets a writeable kind through on can_be_mutable: ro. + writecap comes back writeable"),
+    M("chain-ro-prefix-sets-mutable-true", U,
+      "    elif s.startswith(ALLEGED_READONLY_PREFIX):\n        can_be_writeable = False\n        s = s[len(ALLEGED_READONLY_PREFIX):]\n\n    error = None\n",
+      "    elif s.startswith(ALLEGED_READONLY_PREFIX):\n        can_be_mutable = True\n        can_be_writeable = False\n        s = s[len(ALLEGED_READONLY_PREFIX):]\n\n    error = None\n",
+      "C16.17", note="the same slip in the if-chain shape: the 'ro.' branch raises can_be_mutable"),
+    M("table-refusal-without-error", U, FS_CHAIN,
+      _fs_table(refused_tail="    # A constraint was not met.\n    return UnknownURI(u)\n"), "C16.10",
+      note="table-driven shape: the refused kind comes back as an error-less UnknownURI"),
+    M("table-one-cut-for-both-prefixes", U, FS_CHAIN, _fs_table(cut="len(ALLEGED_READONLY_PREFIX)"), "C16.13",
+      note="table-driven shape: 'imm.' is cut by len('ro.'), the kind behind it is not recognised"),
     # ---- vanished anchor
     M("vanish-node-cache", NM, "                self._node_cache[memokey] = node  # note: WeakValueDictionary\n", "                pass\n", "ANALYSIS-ERROR"),
     M("vanish-wrap-dirnode-cap", U, "def wrap_dirnode_cap(filecap):", "def wrap_dirnode_capX(filecap):", "ANALYSIS-ERROR"),
